@@ -530,4 +530,9 @@ def random_vocab(rng, with_dot=None, with_nop=True):
     if with_dot if with_dot is not None else rng.random() < 0.5:
         syms.append(".")
     rng.shuffle(syms)
-    return {s: i for i, s in enumerate(syms)}
+    # a bijection symbols <-> 0..n-1 whose dict insertion order is NOT the index order (two runs in three):
+    # a dict is a mapping, not a sequence - nothing may depend on the order in which the vocabulary was built
+    idx = list(range(len(syms)))
+    if rng.random() < 0.67:
+        rng.shuffle(idx)
+    return {s: idx[k] for k, s in enumerate(syms)}
